@@ -545,3 +545,26 @@ Proof. unfold is_topo. intros H. apply andb_true_iff in H as [H1 H2]. split; [no
   intros u v Hi. rewrite forallb_forall in H2. specialize (H2 _ Hi). simpl in H2.
   apply andb_true_iff in H2 as [H2 H3]. apply andb_true_iff in H2 as [H2 H4].
   apply mem_In in H2. apply mem_In in H4. apply Nat.ltb_lt in H3. auto. Qed.
+
+(* ------------------------------------------------------------------ merge with (flattened) list operands; `&=` *)
+Lemma merge_graph_l_spec a bs :
+  (forall n, In n (fst (merge_graph_l a bs)) <-> In n (v_nodes a) \/ exists b, In b bs /\ In n (v_nodes b)) /\
+  (forall e, In e (snd (merge_graph_l a bs)) <-> In e (v_edges a) \/ exists b, In b bs /\ In e (v_edges b)) /\
+  NoDup (fst (merge_graph_l a bs)) /\ NoDup (snd (merge_graph_l a bs)).
+Proof. simpl. split; [|split; [|split; apply NoDup_nodup]].
+  - intros n. rewrite nodup_In, in_app_iff, in_flat_map. tauto.
+  - intros e. rewrite nodup_In, in_app_iff, in_flat_map. tauto. Qed.
+
+Lemma update_graph_rejected isc nm m bs : fst (update_graph isc nm m bs) = ErrCycle -> snd (update_graph isc nm m bs) = m.
+Proof. unfold update_graph. destruct (merge_l isc nm (VModel m) bs); simpl; intros H; try reflexivity; discriminate. Qed.
+
+Lemma update_graph_accepted isc nm m bs m' :
+  (merge_l isc nm (VModel m) bs = Ok m' <-> fst (update_graph isc nm m bs) = Ok m') /\
+  (merge_l isc nm (VModel m) bs = Ok m' -> update_graph isc nm m bs = (Ok m', m')).
+Proof. unfold update_graph. destruct (merge_l isc nm (VModel m) bs); simpl; split; try split; intros H; try discriminate; try congruence. Qed.
+
+Lemma update_graph_cycle isc nm m bs :
+  wf (fst (merge_graph_l (VModel m) bs)) (snd (merge_graph_l (VModel m) bs)) ->
+  (exists v, reach (snd (merge_graph_l (VModel m) bs)) v v) -> update_graph isc nm m bs = (ErrCycle, m).
+Proof. intros Hwf Hc. unfold update_graph, merge_l. destruct (merge_graph_l (VModel m) bs) as [V E].
+  rewrite (mk_model_cycle_rejected isc nm V E Hwf Hc). reflexivity. Qed.
